@@ -370,6 +370,23 @@ class Evaluator:
             return r if short.endswith("eq") else int(not r)
         if short in ("core::convert::From::from", "core::convert::Into::into", "core::clone::Clone::clone", "core::borrow::Borrow::borrow"):
             return self.deref_val(args[0]) if short.endswith("clone") else args[0]
+        if short.startswith("core::num::<impl ") and all(isinstance(a, int) for a in args):
+            ity = short[len("core::num::<impl "):].split(">")[0]
+            meth = short.split("::")[-1]
+            bits = {"u8": 8, "u16": 16, "u32": 32, "u64": 64, "usize": 64, "i8": 8, "i16": 16, "i32": 32, "i64": 64, "isize": 64}.get(ity)
+            if bits and meth in ("wrapping_add", "wrapping_sub", "wrapping_add_signed", "wrapping_mul"):
+                r = {"wrapping_add": args[0] + args[1], "wrapping_add_signed": args[0] + args[1],
+                     "wrapping_sub": args[0] - args[1], "wrapping_mul": args[0] * args[1]}[meth]
+                r &= (1 << bits) - 1
+                if ity.startswith("i") and r >= 1 << (bits - 1):
+                    r -= 1 << bits
+                return r
+            if bits and meth in ("saturating_sub", "saturating_add"):
+                r = args[0] - args[1] if "sub" in meth else args[0] + args[1]
+                lo, hi = (0, (1 << bits) - 1) if ity.startswith("u") else (-(1 << (bits - 1)), (1 << (bits - 1)) - 1)
+                return max(lo, min(hi, r))
+            if meth in ("min", "max") and len(args) == 2:
+                return min(args) if meth == "min" else max(args)
         if short.startswith("core::num::<impl ") and short.endswith(("::wrapping_sub", "::wrapping_add", "::saturating_sub")):
             op = "Sub" if "sub" in short else "Add"
             return self.binop(op, args[0], args[1])
